@@ -318,6 +318,53 @@ def _grid_job(args):
     return n, out
 
 
+def depv_job(args):
+    """unicast forwarding: the DE position vector of the forwarded copy is refreshed only by a strictly newer table PV
+    of a neighbour destination; everything else equals the received packet except RHL-1"""
+    kind, base_now = args
+    out = []
+    n = 0
+    for dknown in ("neighbour", "multihop_only", "unknown"):
+        for rel in (-1000, -1, 0, 1, 1000):                 # packet's DE tst minus the table's PV tst (ms)
+            m = FwdModel([], 8)
+            w = m.init()
+            w.now = base_now
+            f = w.stations["F"]
+            t_tab = tst_of(w.now)
+            dpos = dict(tst=t_tab, lat=FLAT + 7000, lon=FLON + 1000, pai=1)
+            if dknown == "neighbour":
+                w.inject("F", G.build("beacon", so_addr=ADDR["D"], so=dpos, rhl=1, mhl=1))
+            elif dknown == "multihop_only":
+                w.inject("F", G.build("tsb", so_addr=ADDR["D"], so=dpos, sn=900, rhl=1, mhl=1, nh=G.CNH_BTPB, payload=b"\x07\xd1\0\0x"))
+            w.sent.clear()
+            de = dict(addr=ADDR["D"], tst=(t_tab + rel) % 2**32, lat=FLAT + 1, lon=FLON + 2)
+            so = dict(tst=t_tab, lat=FLAT + 10000, lon=FLON, pai=1)
+            if kind == "guc":
+                pkt = G.build("guc", so_addr=ADDR["S1"], so=so, sn=5, rhl=3, mhl=5, nh=G.CNH_BTPB, payload=b"\x07\xd1\0\0de", de=de)
+            else:
+                pkt = G.build("ls_reply", so_addr=ADDR["S1"], so=so, sn=5, rhl=3, mhl=5, de=de)
+            n += 1
+            rec = dict(pkt=kind, destination=dknown, de_tst_minus_table_ms=rel, wrap=base_now != S.BASE_TIME)
+            try:
+                w.inject("F", pkt)
+            except Exception as e:  # noqa: BLE001
+                out.append((dict(kind="exception", exc=f"{type(e).__name__}: {str(e)[:60]}", **rec), []))
+                continue
+            if len(w.sent) != 1:
+                out.append((dict(kind="forward_count", got=len(w.sent), expected=1, **rec), []))
+                continue
+            got = w.sent[0][1]
+            want = pkt[:3] + bytes([2]) + pkt[4:]
+            if dknown == "neighbour" and rel < 0:
+                # refreshed DE PV: address, table timestamp and position of D
+                new_de = G.spv_encode(ADDR["D"], dpos["tst"], dpos["lat"], dpos["lon"])
+                want = want[:12 + 28] + new_de + want[12 + 48:]
+            if got != want:
+                diff = [i for i in range(min(len(got), len(want))) if got[i] != want[i]]
+                out.append((dict(kind="forward_bytes_de_pv", diff_octets=diff[:8], **rec), []))
+    return n, out
+
+
 def run(ctx):
     thorough = ctx.tier == "thorough"
     states = trans = xchecks = 0
@@ -370,6 +417,16 @@ def run(ctx):
                 ctx.violation(rec, replay=dict(part="rhl_grid", history=hist))
         ctx.parts["rhl_grid"] = dict(evaluations=gn)
         trans += gn
+
+        dn = 0
+        wrap_now = ITS_EPOCH - 5 + (146 * 2**32 - 500) / 1000.0
+        for n, out in pool.imap_unordered(depv_job, [(k, b) for k in ("guc", "ls_reply") for b in (S.BASE_TIME, wrap_now)]):
+            dn += n
+            for rec, hist in out:
+                rec["part"] = "de_pv_refresh"
+                ctx.violation(rec, replay=dict(part="de_pv_refresh", history=hist))
+        ctx.parts["de_pv_refresh"] = dict(evaluations=dn)
+        trans += dn
 
         # ---- part 2: closed loops ------------------------------------------------------------
         jobs = []
